@@ -115,3 +115,39 @@ package hashset
 //@     invariant fresh(result) && Inv(result) && fresh(result.items)
 //@     invariant forall x like keyof(set.items) :: Mem(result, x) <==> visited1[x] && Mem(set, x) && !Mem(another, x)
 //@     decreases Card(set) - nvisited1
+
+// ---- JSON (C11 round trip, C12 replace / sound / atomic) ----
+
+//@ func Set.ToJSON
+//@   requires Inv(set)
+//@   modifies nothing
+//@   ensures [C11 C17 C18] result1 == nil && fresh(arr(result0)) && jarr_kind(result0, keyof(set.items)) == 3 && jarr_len(result0, keyof(set.items)) == Card(set)
+//@   ensures [C11] members: forall i :: 0 <= i && i < Card(set) ==> Mem(set, jarr_at(result0, i, keyof(set.items)))
+//@   ensures [C11] once: forall i, j :: 0 <= i && i < j && j < Card(set) ==> jarr_at(result0, i, keyof(set.items)) != jarr_at(result0, j, keyof(set.items))
+
+//@ func Set.MarshalJSON
+//@   requires Inv(set)
+//@   modifies nothing
+//@   ensures [C11 C17 C18] result1 == nil && fresh(arr(result0)) && jarr_kind(result0, keyof(set.items)) == 3 && jarr_len(result0, keyof(set.items)) == Card(set)
+//@   ensures [C11] members: forall i :: 0 <= i && i < Card(set) ==> Mem(set, jarr_at(result0, i, keyof(set.items)))
+//@   ensures [C11] once: forall i, j :: 0 <= i && i < j && j < Card(set) ==> jarr_at(result0, i, keyof(set.items)) != jarr_at(result0, j, keyof(set.items))
+
+//@ func Set.FromJSON
+//@   requires Inv(set)
+//@   modifies set.items
+//@   modifies map(set.items)
+//@   ensures [C12 C17] Inv(set) && (result == nil <==> jarr_kind(data, keyof(set.items)) >= 2)
+//@   ensures [C12] atomic: result != nil ==> (forall x like keyof(set.items) :: Mem(set, x) <==> old(Mem(set, x)))
+//@   ensures [C11 C12] loaded-only: jarr_kind(data, keyof(set.items)) == 3 ==> (forall x like keyof(set.items) :: Mem(set, x) ==> (exists j :: 0 <= j && j < jarr_len(data, keyof(set.items)) && jarr_at(data, j, keyof(set.items)) == x))
+//@   ensures [C11 C12] loaded-all: jarr_kind(data, keyof(set.items)) == 3 ==> (forall j :: 0 <= j && j < jarr_len(data, keyof(set.items)) ==> Mem(set, jarr_at(data, j, keyof(set.items))))
+//@   ensures [C12] null: jarr_kind(data, keyof(set.items)) == 2 ==> Card(set) == 0
+
+//@ func Set.UnmarshalJSON
+//@   requires Inv(set)
+//@   modifies set.items
+//@   modifies map(set.items)
+//@   ensures [C12 C17] Inv(set) && (result == nil <==> jarr_kind(bytes, keyof(set.items)) >= 2)
+//@   ensures [C12] atomic: result != nil ==> (forall x like keyof(set.items) :: Mem(set, x) <==> old(Mem(set, x)))
+//@   ensures [C11 C12] loaded-only: jarr_kind(bytes, keyof(set.items)) == 3 ==> (forall x like keyof(set.items) :: Mem(set, x) ==> (exists j :: 0 <= j && j < jarr_len(bytes, keyof(set.items)) && jarr_at(bytes, j, keyof(set.items)) == x))
+//@   ensures [C11 C12] loaded-all: jarr_kind(bytes, keyof(set.items)) == 3 ==> (forall j :: 0 <= j && j < jarr_len(bytes, keyof(set.items)) ==> Mem(set, jarr_at(bytes, j, keyof(set.items))))
+//@   ensures [C12] null: jarr_kind(bytes, keyof(set.items)) == 2 ==> Card(set) == 0
